@@ -25,7 +25,7 @@ theorem TdB.newWorker {inp : RunInput} {s s' : Sys} (h : TdB inp s) (hpar : inp.
     (e1 : s'.events = s.events) (e2 : s'.tdown = s.tdown) (e3 : s'.nStarted = s.nStarted + 1)
     (e4 : s'.workers = (setWorker s s.nStarted .idle).workers) (e5 : s'.rpc ≠ .fin) (e6 : s'.rpc ≠ .halted) :
     TdB inp s' := by
-  refine ⟨?_, ?_, ?_, fun x => absurd x hpar, notEnd_of e5 e6⟩
+  refine ⟨?_, ?_, ?_, fun x => absurd x hpar, notEnd_of e5 e6, fun d hd => by rw [e2]; exact h.tdm d (e1 ▸ hd)⟩
   · intro hp; rw [e2, e1]; exact h.shared hp
   · intro hp; rw [e2]; exact h.proc hp
   · intro w hw
@@ -161,11 +161,11 @@ theorem takeStep_tdB {inp : RunInput} {s s' : Sys} {w : Nat} (h : TdB inp s) (hp
       | hold => cases hs; exact h.plain (Plain.of_same rfl rfl) rfl rfl (h.busy b1 b2)
       | stop =>
         cases hs
-        exact ⟨h.shared, h.proc, setWorker_ns h b2 _, fun x => absurd x hpar, h.busy b1 b2⟩
+        exact ⟨h.shared, h.proc, setWorker_ns h b2 _, fun x => absurd x hpar, h.busy b1 b2, h.tdm⟩
       | task n =>
         cases hs
         have hst := startTask_tdB h n w
-        refine ⟨hst.1, hst.2, ?_, fun x => absurd x hpar, ?_⟩
+        refine ⟨hst.1, hst.2, ?_, fun x => absurd x hpar, ?_, startTask_tdm h n w⟩
         · intro k hk
           simp only [setWorker, startTask]
           by_cases e : k = w
@@ -182,7 +182,8 @@ theorem doneStep_tdB {inp : RunInput} {s s' : Sys} {w : Nat} (h : TdB inp s) (hp
     simp only [hw] at hs; cases hs
     have b1 : s.workers w ≠ .exited := by rw [hw]; simp
     have b2 : s.workers w ≠ .notStarted := by rw [hw]; simp
-    refine ⟨?_, h.proc, setWorker_ns h b2 _, fun x => absurd x hpar, h.busy b1 b2⟩
+    refine ⟨?_, h.proc, setWorker_ns h b2 _, fun x => absurd x hpar, h.busy b1 b2,
+      fun d hd => h.tdm d (by simpa using hd)⟩
     intro hp
     show s.tdown = startOrder inp (Ev.fin n w :: s.events)
     rw [show Ev.fin n w :: s.events = [Ev.fin n w] ++ s.events from rfl,
